@@ -83,7 +83,7 @@ def check_exprs(dd, exprs, acc, case, workdir, renderers=RENDERERS):
 
 def shard(ctx, acc):
     dd = env.load()
-    total = 5000 if ctx.quick else 120000
+    total = 5000 if ctx.quick else 400000
     strat = gen_lex.top(max_items=5, max_leaves=30)
 
     def body(doc):
